@@ -64,6 +64,17 @@ func childSvcClientObjs(a []string) string {
 	if err := ref.Remove(ids[1]); err == nil {
 		return "fail:the second removal of an object is accepted"
 	}
+	// an object added after a removal, while older ones are alive: an identifier of its own
+	late := &coActor{}
+	lateID, err := ref.Add(late)
+	if err != nil {
+		return "setup-error:" + err.Error()
+	}
+	for _, k := range []int{0, 2} {
+		if lateID == ids[k] {
+			return fmt.Sprintf("fail:identifier-reused an object added after a removal got the identifier %d of an object that is alive", lateID)
+		}
+	}
 	time.Sleep(20 * time.Millisecond)
 	if n := atomic.LoadInt32(&objs[1].terminated); n != 1 {
 		return fmt.Sprintf("fail:the hook of the removed object ran %d times", n)
@@ -88,6 +99,16 @@ func childSvcClientObjs(a []string) string {
 	}
 	if atomic.LoadInt32(&objs[1].received) != 0 {
 		return "fail:a removed object is invoked"
+	}
+	if lateID != ids[1] && atomic.LoadInt32(&late.received) != 0 {
+		return "fail:others-affected a message for another object reached the object added after a removal"
+	}
+	if err := ref.Remove(lateID); err != nil {
+		return "fail:removal refused: " + err.Error()
+	}
+	time.Sleep(5 * time.Millisecond)
+	if atomic.LoadInt32(&late.terminated) != 1 || atomic.LoadInt32(&objs[0].terminated) != 0 || atomic.LoadInt32(&objs[2].terminated) != 0 {
+		return "fail:others-affected the removal of the object added after a removal ran the wrong hooks"
 	}
 	for _, k := range []int{0, 2} {
 		if err := ref.Remove(ids[k]); err != nil {
